@@ -35,9 +35,23 @@ def concretise(c, rnd):
         tpl = {"rect": f'<rect id="t" wh="{w} {h}"/>', "circle": f'<circle id="t" r="{q(c["w"] / 2)}"/>',
                "ellipse": f'<ellipse id="t" rx="{q(c["w"] / 2)}" ry="{q(c["h"] / 2)}"/>',
                "g": f'<g id="t"><rect wh="{w} {h}"/></g>', "symbol": f'<symbol id="t"><rect wh="{w} {h}"/></symbol>'}[tk]
-        use = f'<reuse id="s" href="#t" x="{q(c["x"])}" y="{q(c["y"])}"/>'
+        an = c["anchor"]
+        xs, ys = q(c["x"]), q(c["y"])
+        if an == "tl":
+            pos = rnd.choice([f'x="{xs}" y="{ys}"', f'xy="{xs} {ys}"', f'xy="{xs} {ys}" xy-loc="tl"'])
+        elif an == "c":
+            pos = rnd.choice([f'cxy="{xs} {ys}"', f'cx="{xs}" cy="{ys}"', f'xy="{xs} {ys}" xy-loc="c"'])
+        elif an == "br":
+            pos = rnd.choice([f'x2="{xs}" y2="{ys}"', f'xy2="{xs} {ys}"', f'xy="{xs} {ys}" xy-loc="br"'])
+        else:
+            pos = f'xy="{xs} {ys}" xy-loc="{an}"'
+        use = f'<reuse id="s" href="#t" {pos}/>'
         if c["where"] == "specs":
             return f"<svg><specs>{tpl}</specs>{use}</svg>"
+        if c["where"] == "defs":
+            if tk not in ("g", "symbol"):
+                return f"<svg><specs>{tpl}</specs><rect wh=\"1\"/>{use}</svg>"
+            return f"<svg><defs>{tpl}</defs>{use}</svg>"
         if c["where"] == "inline-before":
             return f"<svg>{tpl}{use}</svg>"
         return f"<svg>{use}{tpl}</svg>"
